@@ -29,7 +29,11 @@ import threading
 import time
 
 REPO = os.environ.get('VERIF_REPO', '/repo')
+sys.path.insert(0, os.path.dirname(os.path.dirname(os.path.abspath(__file__))))
 sys.path.insert(0, REPO)
+from harness import covprobe  # noqa: E402
+
+covprobe.install_from_env()
 import logging  # noqa: E402
 
 logging.disable(logging.CRITICAL)
